@@ -16,6 +16,7 @@ func init() {
 	vRegister("HarnessC10Slices", HarnessC10Slices)
 	vRegister("HarnessC10Maps", HarnessC10Maps)
 	vRegister("HarnessC10SliceChain", HarnessC10SliceChain)
+	vRegister("HarnessC10Limit", HarnessC10Limit)
 	vRegister("HarnessC10Structs", HarnessC10Structs)
 }
 
@@ -292,6 +293,30 @@ func HarnessC10SliceChain() {
 		vCover("c10 chain: shrink then grow")
 	}
 	vCover("c10 chain: done")
+}
+
+// HarnessC10Limit: slices at the documented size limit (999 and 1000
+// elements) survive Encode/Decode, and a diff that grows a slice to the limit
+// can be merged.
+func HarnessC10Limit() {
+	n := 999 + vChoose(2)
+	x, y := c10Int(), c10Int()
+	a := vCfg{ID: "n"}
+	a.SI = make([]int, n)
+	for i := range a.SI {
+		a.SI[i] = x
+	}
+	a.SI[n-1] = y
+	got := c10Roundtrip(a)
+	vAssert(len(got.SI) == n && got.SI[0] == x && got.SI[n/2] == x && got.SI[n-1] == y, "a slice at the documented limit survives Encode/Decode")
+	// grow from n-2 elements to n
+	b := vCfg{ID: "n", SI: append([]int{}, a.SI[:n-2]...)}
+	gb := c10Roundtrip(b)
+	pts, err := DiffPoints(b, a)
+	vAssert(err == nil && len(pts) == 2, "the diff of a slice grown by two elements has two points")
+	err = MergePoints("n", pts, &gb)
+	vAssert(err == nil && len(gb.SI) == n && gb.SI[n-1] == y && gb.SI[n-2] == x, "merging a diff that grows a slice to the limit gives the second value")
+	vCover("c10 limit: done")
 }
 
 // HarnessC10Maps: string-keyed maps, entries added, changed and removed.
